@@ -5,7 +5,7 @@
 #include "node_common.h"
 
 enum { M_PREOP = 2, M_OP = 3, M_STOP = 4 };
-static struct { uint8_t mode, producing, pending_rx, pend_val, p8; uint32_t cobid /* stored 1005h */, cycle /* stored 1006h in ticks*1000 us */; uint16_t rem; } M;
+static struct { uint8_t mode, producing, pending_rx, pend_val, p8, cnt2 /* SYNCs counted by the type-2 TPDO #3 */; uint32_t cobid /* stored 1005h */, cycle /* stored 1006h in ticks*1000 us */; uint16_t rem; } M;
 static uint32_t USPT;   /* microseconds per tick */
 
 static const uint32_t ID_VALS[] = { 0x80u, 0x81u, 0x40000080u, 0x40000081u };
@@ -21,7 +21,9 @@ static int build(int cfg)
     NC.freq = cfg == 4 ? 10000 : 1000; USPT = 1000000u / NC.freq;
     NC.sync = 1; NC.sync_id = ID0[cfg]; NC.sync_cycle = CYT[cfg] * USPT;
     NC.n_rpdo = 1; NC.rpdo[0].present = 1; NC.rpdo[0].cobid = 0x201; NC.rpdo[0].type = 1; NC.rpdo[0].nmap = 1; NC.rpdo[0].map[0] = NC_MAP(0x2110, 0, 8);
-    NC.n_tpdo = 1; NC.tpdo[0].present = 1; NC.tpdo[0].cobid = 0x40000181u; NC.tpdo[0].type = 1; NC.tpdo[0].nmap = 1; NC.tpdo[0].map[0] = NC_MAP(0x2111, 0, 16);
+    NC.n_tpdo = 4; NC.tpdo[0].present = 1; NC.tpdo[0].cobid = 0x40000181u; NC.tpdo[0].type = 1; NC.tpdo[0].nmap = 1; NC.tpdo[0].map[0] = NC_MAP(0x2111, 0, 16);
+    /* a second synchronous TPDO, number 3 and type 2: "every SYNC advances EACH synchronous PDO's schedule exactly once" */
+    NC.tpdo[3].present = 1; NC.tpdo[3].cobid = 0x40000481u; NC.tpdo[3].type = 2; NC.tpdo[3].nmap = 1; NC.tpdo[3].map[0] = NC_MAP(0x2110, 0, 8);
     nc_build();
     (void)CONodeGetErr(&Node);
     memset(&M, 0, sizeof M);
@@ -44,7 +46,7 @@ static int resolvable(uint32_t half_ticks) { return half_ticks >= 2 && (half_tic
 
 static int step(int e)
 {
-    int expect_sync = 0, expect_tpdo = 0; uint8_t d[8] = { 0 }; uint32_t r, back;
+    int expect_sync = 0, expect_tpdo = 0, expect_tpdo3 = 0; uint8_t d[8] = { 0 }; uint32_t r, back;
     if (e < E_CY0) {                                           /* ---- write 1005h ---- */
         uint32_t nv = ID_VALS[e]; int verdict = 0;             /* 0 accept, 1 refuse 0609 0030, 2 either */
         if (M.mode == M_STOP) return MC_SKIP;
@@ -76,15 +78,15 @@ static int step(int e)
     case E_F80: case E_F81: case E_F7F: {
         uint32_t id = e == E_F80 ? 0x80 : e == E_F81 ? 0x81 : 0x7F;
         int recognised = (id == (M.cobid & 0x7FF)) && (M.mode == M_PREOP || M.mode == M_OP);
-        if (recognised && M.mode == M_OP) { expect_tpdo = 1; if (M.pending_rx == 1) { M.p8 = M.pend_val; } M.pending_rx = 0; }
+        if (recognised && M.mode == M_OP) { expect_tpdo = 1; if (++M.cnt2 == 2) { M.cnt2 = 0; expect_tpdo3 = 1; } if (M.pending_rx == 1) { M.p8 = M.pend_val; } M.pending_rx = 0; }
         w_rx(&Node, id, 0, d);
         if (nc_count_cb(CB_IF_RECEIVE) != (recognised || M.mode == M_STOP ? nc_count_cb(CB_IF_RECEIVE) * (M.mode == M_STOP) : 1))
             mc_fail("sync-recognition", "frame %03X with 1005h=%08X in mode %d: handed to the application %d time(s)", id, M.cobid, M.mode, nc_count_cb(CB_IF_RECEIVE));
         break; }
-    case E_START: if (M.mode != M_OP) { M.pending_rx = M.pending_rx ? 2 : 0; } M.mode = M_OP; nc_nmt(1, 0); break;
-    case E_STOP:  M.mode = M_STOP; if (M.pending_rx) M.pending_rx = 2; nc_nmt(2, 0); break;
-    case E_PREOP: M.mode = M_PREOP; if (M.pending_rx) M.pending_rx = 2; nc_nmt(128, 0); break;
-    case E_RESET: M.mode = M_PREOP; M.pending_rx = 0; M.producing = (M.cobid >> 30) & 1; M.rem = (uint16_t)(M.producing && resolvable(M.cycle) ? M.cycle / 2 : 0); nc_nmt(130, 0); break;
+    case E_START: if (M.mode != M_OP) { M.pending_rx = M.pending_rx ? 2 : 0; M.cnt2 = 0; } M.mode = M_OP; nc_nmt(1, 0); break;   /* entering OPERATIONAL restarts the schedule */
+    case E_STOP:  M.mode = M_STOP; M.cnt2 = 0; if (M.pending_rx) M.pending_rx = 2; nc_nmt(2, 0); break;
+    case E_PREOP: M.mode = M_PREOP; M.cnt2 = 0; if (M.pending_rx) M.pending_rx = 2; nc_nmt(128, 0); break;
+    case E_RESET: M.mode = M_PREOP; M.cnt2 = 0; M.pending_rx = 0; M.producing = (M.cobid >> 30) & 1; M.rem = (uint16_t)(M.producing && resolvable(M.cycle) ? M.cycle / 2 : 0); nc_nmt(130, 0); break;
     case E_TICK:
         if (M.producing && M.rem > 0) { if (--M.rem == 0) { M.rem = (uint16_t)(M.cycle / 2); if (M.mode == M_PREOP || M.mode == M_OP) expect_sync = 1; } }
         w_tick(&Node, 1); break;
@@ -97,14 +99,15 @@ static int step(int e)
     }
     /* ---- SYNC emissions and synchronous PDO reactions of the step ---- */
     {
-        int nsync = 0, ntp = nc_count_tx(0x181);
+        int nsync = 0, ntp = nc_count_tx(0x181), ntp3 = nc_count_tx(0x481);
         for (int i = 0; i < OBS.ntx; i++) {
             const WFrame *f = &OBS.tx[i];
-            if (f->id == 0x181 || f->id == 0x581 || (f->id == 0x701 && e == E_RESET)) continue;
+            if (f->id == 0x181 || f->id == 0x481 || f->id == 0x581 || (f->id == 0x701 && e == E_RESET)) continue;
             if (f->id == (M.cobid & 0x7FF) && f->dlc == 0) { nsync++; continue; }
             mc_fail("sync-unexpected-frame", "frame %03X (DLC %d) sent on '%s' with 1005h=%08X", f->id, f->dlc, ev_name(e), M.cobid); return MC_OK;
         }
         if (nsync != expect_sync) { mc_fail(nsync < expect_sync ? "sync-missing" : "sync-unexpected", "%d SYNC frame(s) produced on '%s', expected %d (producing=%d period=%u half ticks, %u tick(s) to go, mode %d)", nsync, ev_name(e), expect_sync, M.producing, M.cycle, M.rem, M.mode); return MC_OK; }
+        if (ntp3 != expect_tpdo3) { mc_fail("sync-tpdo-reaction", "%d frame(s) of the type-2 TPDO #3 on '%s', expected %d (SYNC count %d, mode %d, 1005h=%08X)", ntp3, ev_name(e), expect_tpdo3, M.cnt2, M.mode, M.cobid); return MC_OK; }
         if (ntp != expect_tpdo) { mc_fail("sync-tpdo-reaction", "%d synchronous TPDO frame(s) on '%s', expected %d (mode %d, 1005h=%08X)", ntp, ev_name(e), expect_tpdo, M.mode, M.cobid); return MC_OK; }
     }
     if (M.pending_rx == 2) {               /* a frame buffered before an NMT change: applying it at the next SYNC in OPERATIONAL or dropping it are both admissible */
